@@ -21,6 +21,9 @@ type Ctx struct {
 	prefix []int
 	Points []Point
 	budget map[string]int
+	// Shadow marks an execution that only serves to enumerate the subtrees of a shard; it belongs to another shard,
+	// so the body must not count or judge it.
+	Shadow bool
 }
 
 // ReplayError is raised (as a panic) when a recorded prefix does not fit the execution it is replayed on.
@@ -131,3 +134,70 @@ func Replay(body func(c *Ctx), choices []int) *Ctx {
 	body(c)
 	return c
 }
+
+// ExploreShard enumerates the part of body's execution tree that belongs to shard i of n: the tree is partitioned
+// into the root execution (shard 0) and the subtrees below each alternative of each choice point of the root
+// execution; subtree number j goes to shard j mod n. stop (may be nil) is polled between executions; when it returns
+// true the exploration ends early and Stats.Truncated is set. onExec (may be nil) is called after every execution with
+// the length of the prefix that was replayed (so the caller can tell replayed from new steps).
+func ExploreShard(body func(c *Ctx), shard, n int, stop func() bool) Stats {
+	var st Stats
+	account := func(c *Ctx) {
+		st.Executions++
+		st.Points += int64(len(c.Points))
+		if len(c.Points) > st.MaxDepth {
+			st.MaxDepth = len(c.Points)
+		}
+		if d := c.Deviations(); d > st.MaxDev {
+			st.MaxDev = d
+		}
+	}
+	root := &Ctx{Shadow: shard != 0 && n > 1}
+	body(root)
+	if !root.Shadow {
+		account(root)
+	}
+	var stack [][]int
+	j := 0
+	for i := len(root.Points) - 1; i >= 0; i-- {
+		for alt := root.Points[i].N - 1; alt >= 1; alt-- {
+			if n <= 1 || j%n == shard {
+				np := make([]int, i+1)
+				for k := 0; k < i; k++ {
+					np[k] = root.Points[k].Chosen
+				}
+				np[i] = alt
+				stack = append(stack, np)
+			}
+			j++
+		}
+	}
+	for len(stack) > 0 {
+		if stop != nil && stop() {
+			st.Truncated = true
+			return st
+		}
+		prefix := stack[len(stack)-1]
+		stack = stack[:len(stack)-1]
+		c := &Ctx{prefix: prefix}
+		body(c)
+		if len(c.Points) < len(prefix) {
+			panic(ReplayError{fmt.Sprintf("explore: replay divergence: execution ended after %d points, prefix has %d", len(c.Points), len(prefix))})
+		}
+		account(c)
+		for i := len(c.Points) - 1; i >= len(prefix); i-- {
+			for alt := c.Points[i].N - 1; alt >= 1; alt-- {
+				np := make([]int, i+1)
+				for k := 0; k < i; k++ {
+					np[k] = c.Points[k].Chosen
+				}
+				np[i] = alt
+				stack = append(stack, np)
+			}
+		}
+	}
+	return st
+}
+
+// PrefixLen is the number of choices this execution replayed from its prefix.
+func (c *Ctx) PrefixLen() int { return len(c.prefix) }
